@@ -50,7 +50,7 @@ from .ast_nodes import (
     ArrowFunctionExpression,
 )
 from .opcodes import OpCode
-from .values import UNDEFINED
+from .values import UNDEFINED, to_string
 from .errors import JSError, JSSyntaxError
 
 
@@ -77,6 +77,7 @@ class CompiledFunction:
         default_factory=list
     )  # Names declared with var by a program (exist, undefined, from its start)
     is_arrow: bool = False  # arrow function: `this` is the one of the enclosing code
+    inferred_name: str = ""  # name of an anonymous function taken from its context
 
 
 @dataclass
@@ -144,6 +145,7 @@ class Compiler:
         )  # bytecode_pos -> (line, column)
         self._current_loc: Optional[Tuple[int, int]] = None  # Current source location
         self._hoisted: set = set()  # ids of function declarations compiled on entry
+        self._inferred_name: str = ""  # name for the anonymous function compiled next
         # Program-level slot holding the completion value (the result of eval)
         self._completion_slot: Optional[int] = None
         self._completion_muted = 0  # > 0 while compiling a finally block
@@ -652,7 +654,7 @@ class Compiler:
             for decl in node.declarations:
                 name = decl.id.name
                 if decl.init:
-                    self._compile_expression(decl.init)
+                    self._compile_named(decl.init, name)
                 else:
                     # `var x;` declares (hoisted) but assigns nothing: a
                     # variable that already has a value keeps it
@@ -1407,6 +1409,15 @@ class Compiler:
 
     # ---- Expressions ----
 
+    def _compile_named(self, node: Node, name: str) -> None:
+        """Compile the value of `name = node`, `var name = node`, `{name: node}`:
+        an anonymous function (or arrow) expression is given that name."""
+        if isinstance(node, ArrowFunctionExpression) or (
+            isinstance(node, FunctionExpression) and not node.id
+        ):
+            self._inferred_name = name  # taken by the function compiled next
+        self._compile_expression(node)
+
     def _compile_expression(self, node: Node) -> None:
         """Compile an expression."""
         if isinstance(node, NumericLiteral):
@@ -1499,8 +1510,18 @@ class Compiler:
                     kind = "field"
                 kind_idx = self._add_constant(kind)
                 self._emit(OpCode.LOAD_CONST, kind_idx)
-                # Value
-                self._compile_expression(prop.value)
+                # Value (an anonymous function is named after a literal key)
+                if prop.computed or not isinstance(
+                    prop.key, (Identifier, StringLiteral, NumericLiteral)
+                ):
+                    self._compile_expression(prop.value)
+                else:
+                    key = prop.key
+                    text = key.name if isinstance(key, Identifier) else key.value
+                    if not isinstance(text, str):
+                        text = to_string(text)
+                    prefix = prop.kind + " " if prop.kind in ("get", "set") else ""
+                    self._compile_named(prop.value, prefix + text)
             self._emit(OpCode.BUILD_OBJECT, len(node.properties))
 
         elif isinstance(node, UnaryExpression):
@@ -1740,7 +1761,7 @@ class Compiler:
             if isinstance(node.left, Identifier):
                 name = node.left.name
                 if node.operator == "=":
-                    self._compile_expression(node.right)
+                    self._compile_named(node.right, name)
                 else:
                     # Compound assignment - load current value first
                     cell_slot = self._get_cell_var(name)
@@ -1853,9 +1874,11 @@ class Compiler:
 
         elif isinstance(node, FunctionExpression):
             name = node.id.name if node.id else ""
+            inferred, self._inferred_name = self._inferred_name, ""
             func = self._compile_function(
                 name, node.params, node.body, is_expression=True
             )
+            func.inferred_name = inferred
             func_idx = len(self.functions)
             self.functions.append(func)
 
@@ -1864,7 +1887,9 @@ class Compiler:
             self._emit(OpCode.MAKE_CLOSURE, func_idx)
 
         elif isinstance(node, ArrowFunctionExpression):
+            inferred, self._inferred_name = self._inferred_name, ""
             func = self._compile_arrow_function(node)
+            func.inferred_name = inferred
             func_idx = len(self.functions)
             self.functions.append(func)
 
